@@ -50,6 +50,9 @@ fn emit_pair(sink: &mut Sink, rng: &mut Rng, a: &Value, b: &Value, all: bool) {
     for c in ["add", "sub", "mul", "div", "rem", "and", "or"] {
         sink.emit(&format!("ar.{c}"), &args);
     }
+    if matches!((a, b), (Value::Object(_), _) | (_, Value::Object(_))) {
+        sink.emit("ar.merge", &args);
+    }
     if let (Some(x), Some(y)) = (bits_of(a), bits_of(b)) {
         let fa = [format!("d:{x:016x}"), format!("d:{y:016x}")];
         for c in ["add", "sub", "mul", "div", "rem"] {
